@@ -43,8 +43,9 @@ def _run(ctx, sub, cases, timeout=900):
     bad = [r for r in res if "_bad_case" in r]
     out = [r for r in res if "id" in r]
     if crash or bad or len(out) != len(cases):
-        raise vlib.MachineryError("h2lib %s: %d results for %d cases; crash=%s bad=%s" %
-                                  (sub, len(out), len(cases), crash[:1], bad[:1]))
+        odd = [r for r in res if "id" not in r][:2]
+        raise vlib.MachineryError("h2lib %s: %d results for %d cases; crash=%s bad=%s other=%s" %
+                                  (sub, len(out), len(cases), crash[:1], bad[:1], str(odd)[:600]))
     return out
 
 
@@ -185,13 +186,18 @@ def check_c36(ctx):
 
 HP_SETS = {
     "mc_quick": {"NAMES": '{":method", "cookie", "x-a"}', "VALUES": '{"GET", "v", "ww"}',
-                 "MAXVALS": "{0, 37, 80, 4096}", "LIMITS": "{40, 100, 4096}", "STEPS": 4},
+                 "MAXVALS": "{0, 37, 80, 4096}", "LIMITS": "{40, 100, 4096}", "STEPS": 4, "LONG": "{}"},
     "mc_thorough": {"NAMES": '{":method", "cookie", "x-a"}', "VALUES": '{"GET", "v", "ww"}',
-                    "MAXVALS": "{0, 37, 80, 4096}", "LIMITS": "{40, 100, 4096}", "STEPS": 6},
+                    "MAXVALS": "{0, 37, 80, 4096}", "LIMITS": "{40, 100, 4096}", "STEPS": 6, "LONG": "{}"},
     "gen_small": {"NAMES": '{":method", "x-a"}', "VALUES": '{"GET", "v"}',
-                  "MAXVALS": "{0, 37, 4096}", "LIMITS": "{40, 4096}", "STEPS": 3},
+                  "MAXVALS": "{0, 37, 4096}", "LIMITS": "{40, 4096}", "STEPS": 3, "LONG": "{}"},
     "gen_sim": {"NAMES": '{":method", "cookie", "x-a", "x-bb"}', "VALUES": '{"GET", "", "v", "ww", "xyz"}',
-                "MAXVALS": "{0, 37, 40, 80, 120, 4096, 8192}", "LIMITS": "{40, 100, 4096}", "STEPS": 14},
+                "MAXVALS": "{0, 37, 40, 80, 120, 4096, 8192}", "LIMITS": "{40, 100, 4096}", "STEPS": 14, "LONG": "{}"},
+    # integer-coding boundaries (RFC 7541 5.1): for prefix width N the values 2^N-2, 2^N-1, 2^N-1+127, +128, +129,
+    # +16383, +16384 as table sizes (N = 5) and string lengths (N = 7); the larger limit lets them reach the wire
+    "gen_bound": {"NAMES": '{":method", "x-a"}', "VALUES": '{"GET", "v"}',
+                  "MAXVALS": "{30, 31, 158, 159, 160, 16414, 16415, 4096}", "LIMITS": "{4096, 65536}", "STEPS": 10,
+                  "LONG": "{126, 127, 254, 255, 256}"},
 }
 
 
@@ -257,16 +263,21 @@ def check_c30(ctx):
     ctx.cov["constants"]["Hpack_Gen_exhaustive"] = g1
     g2 = HP_SETS["gen_sim"]
     ctx.cov["constants"]["Hpack_Gen_sim"] = g2
+    g3 = HP_SETS["gen_bound"]
+    ctx.cov["constants"]["Hpack_Gen_boundaries"] = g3
     ctx.build("h2lib")
     ctx.cov["checker_cmd"] = "cd specs/H2 && tlc -workers %d -config Hpack_MC.cfg -noGenerateSpecTE Hpack.tla" % vlib.NCPU
-    _, base, sim, events = _par(
+    _, base, sim, bnd, events = _par(
         lambda: ctx.tlc_must_pass(SPEC, "Hpack", "Hpack_MC.cfg", defines=mcd, timeout=3000),
         lambda: _gen(ctx, "GenHpack", "Hpack_Gen.cfg", g1, timeout=1500, label="exhaustive").cases,
         lambda: _gen(ctx, "GenHpack", "Hpack_Gen.cfg", g2, mode="sim", num=400 if q else 4000, depth=40,
                      label="sim").cases,
-        lambda: _hpack_record(ctx, [{"cases": 12 if q else 100, "ops": 150 if q else 400}], "record"))
+        lambda: _gen(ctx, "GenHpack", "Hpack_Gen.cfg", g3, mode="sim", num=150 if q else 1500, depth=30,
+                     label="boundaries").cases,
+        lambda: _hpack_record(ctx, [{"cases": 12 if q else 100, "ops": 150 if q else 400, "boundary": True,
+                                     "full": not q}], "record"))
     for alt in range(0, 2 if q else 4):
-        for c in base + sim:
+        for c in base + sim + bnd:
             cases.append({"ops": c["ops"], "alt": alt})
     res = _run(ctx, "hpack-run", cases)
     _judge(ctx, "hpack-run", cases, res, "encode")
